@@ -34,6 +34,7 @@ CoinsViewEmpty& CoinsViewEmpty::Get()
 
 std::optional<Coin> CCoinsViewCache::PeekCoin(const COutPoint& outpoint) const
 {
+    VERIF_ACCESS(&cacheCoins, 0, "CCoinsViewCache::PeekCoin.cacheCoins");
     if (auto it{cacheCoins.find(outpoint)}; it != cacheCoins.end()) {
         return it->second.coin.IsSpent() ? std::nullopt : std::optional{it->second.coin};
     }
@@ -57,6 +58,7 @@ std::optional<Coin> CCoinsViewCache::FetchCoinFromBase(const COutPoint& outpoint
 }
 
 CCoinsMap::iterator CCoinsViewCache::FetchCoin(const COutPoint &outpoint) const {
+    VERIF_ACCESS(&cacheCoins, 1, "CCoinsViewCache::FetchCoin.cacheCoins");
     const auto [ret, inserted] = cacheCoins.try_emplace(outpoint);
     if (inserted) {
         if (auto coin{FetchCoinFromBase(outpoint)}) {
@@ -82,6 +84,7 @@ void CCoinsViewCache::AddCoin(const COutPoint &outpoint, Coin&& coin, bool possi
     if (coin.out.scriptPubKey.IsUnspendable()) return;
     CCoinsMap::iterator it;
     bool inserted;
+    VERIF_ACCESS(&cacheCoins, 1, "CCoinsViewCache::AddCoin.cacheCoins");
     std::tie(it, inserted) = cacheCoins.emplace(std::piecewise_construct, std::forward_as_tuple(outpoint), std::tuple<>());
     bool fresh = false;
     if (!possible_overwrite) {
@@ -183,6 +186,7 @@ bool CCoinsViewCache::HaveCoin(const COutPoint& outpoint) const
 }
 
 bool CCoinsViewCache::HaveCoinInCache(const COutPoint &outpoint) const {
+    VERIF_ACCESS(&cacheCoins, 0, "CCoinsViewCache::HaveCoinInCache.cacheCoins");
     CCoinsMap::const_iterator it = cacheCoins.find(outpoint);
     return (it != cacheCoins.end() && !it->second.coin.IsSpent());
 }
@@ -200,6 +204,7 @@ void CCoinsViewCache::SetBestBlock(const uint256& in_block_hash)
 
 void CCoinsViewCache::BatchWrite(CoinsViewCacheCursor& cursor, const uint256& in_block_hash)
 {
+    VERIF_ACCESS(&cacheCoins, 1, "CCoinsViewCache::BatchWrite.cacheCoins");
     for (auto it{cursor.Begin()}; it != cursor.End(); it = cursor.NextAndMaybeErase(*it)) {
         if (!it->second.IsDirty()) { // TODO a cursor can only contain dirty entries
             continue;
@@ -274,6 +279,7 @@ void CCoinsViewCache::Flush(bool reallocate_cache)
     auto cursor{CoinsViewCacheCursor(m_dirty_count, m_sentinel, cacheCoins, /*will_erase=*/true)};
     base->BatchWrite(cursor, m_block_hash);
     Assume(m_dirty_count == 0);
+    VERIF_ACCESS(&cacheCoins, 1, "CCoinsViewCache::Flush.cacheCoins");
     cacheCoins.clear();
     if (reallocate_cache) {
         ReallocateCache();
@@ -294,6 +300,7 @@ void CCoinsViewCache::Sync()
 
 void CCoinsViewCache::Reset() noexcept
 {
+    VERIF_ACCESS(&cacheCoins, 1, "CCoinsViewCache::Reset.cacheCoins");
     cacheCoins.clear();
     cachedCoinsUsage = 0;
     m_dirty_count = 0;
@@ -302,6 +309,7 @@ void CCoinsViewCache::Reset() noexcept
 
 void CCoinsViewCache::Uncache(const COutPoint& hash)
 {
+    VERIF_ACCESS(&cacheCoins, 1, "CCoinsViewCache::Uncache.cacheCoins");
     CCoinsMap::iterator it = cacheCoins.find(hash);
     if (it != cacheCoins.end() && !it->second.IsDirty()) {
         Assume(TrySub(cachedCoinsUsage, it->second.coin.DynamicMemoryUsage()));
